@@ -30,6 +30,7 @@ def fault_scenarios(rng, nbase, quick, pairs=False):
         for (ci, k) in positions:
             s2 = copy.copy(sc)
             s2.faults = {ci: k}
+            s2.fault_type = len(out)        # the exception classes of proxies.BOOMS in turn
             out.append(s2)
         if pairs:
             for _ in range(10):
@@ -55,6 +56,7 @@ def batch_fault_scenarios(rng, nbase, quick):
         for (ci, k) in positions:
             s2 = copy.copy(sc)
             s2.fault = (ci, k)
+            s2.fault_type = len(out)
             out.append(s2)
     return out
 
